@@ -73,6 +73,10 @@ Section Kira.
   Qed.
   Theorem kira_res_steady : res_steady kira_ops.
   Proof. intros res n. reflexivity. Qed.
+  Theorem kira_hypotheses : sound_seq kira_ops /\ effect_seq kira_ops /\ ctl_steady kira_ops /\ res_steady kira_ops.
+  Proof.
+    split; [exact kira_sound_seq | split; [exact kira_effect_seq | split; [exact kira_ctl_steady | exact kira_res_steady]]].
+  Qed.
   Lemma kira_never_paused : never_paused kira_ops.
   Proof. intros env cs n. reflexivity. Qed.
 
